@@ -347,6 +347,16 @@ def corpus_trees():
         # binding must NOT reach the read after the statement (seeded C03-2)
         [A(1, 'y'), ('try', [A(2, 'x')], [([], None, [A(3, 'x')])], [A(4, 'x')], [R(10, 'y')], True, True), R(11, 'x')],
         [A(1, 'y'), ('try', [A(2, 'x')], [([], (3, 'e1'), [A(4, 'x')]), ([], None, [A(5, 'x')])], [A(6, 'x')], [R(10, 'y')], True, True), R(11, 'x')],
+        # six nested single-parent blocks: the binding of the outermost block, not the one before it, reaches the
+        # innermost read (seeded C02-r5-1: layers of the merged name table folded in the wrong order)
+        [A(1, 'x'), ('if', [], [A(2, 'x'), ('if', [], [('if', [], [('if', [], [('if', [], [('if', [], [R(10, 'x')], [('pass',)], [])],
+          [('pass',)], [])], [('pass',)], [])], [('pass',)], [])], [('pass',)], [])], [('pass',)], []), R(11, 'x')],
+        [A(1, 'y'), ('try', [A(2, 'y'), ('with', [], [(3, 'w')], [('if', [], [('with', [], [(4, 'z')], [('if', [], [('if', [], [R(10, 'y')], [('pass',)], [])],
+          [('pass',)], [])])], [('pass',)], [])])], [([], None, [('pass',)])], [('pass',)], [('pass',)], True, True)],
+        # an if test holding a comprehension and, behind it, a walrus: both branches and the code after the if see the
+        # walrus binding (seeded C03-r4-2 / C01-r3-1: the branches hung off the flow from before the comprehension)
+        [A(1, 'z'), A(2, 'b'), ('if', [], [R(10, 'z')], [R(11, 'z')], [(3, 'z')], [(12, 'b')]), R(13, 'z')],
+        [('if', [(10, 'a')], [R(11, 'w')], [('pass',)], [(1, 'w')], [(12, 'a')]), R(13, 'w')],
         # the same name bound twice by one statement: the LAST target wins (a, a = p, q / a = a = v)
         [A(1, 'a'), ('assign', [], [(2, 'a'), (3, 'a')], 'tuple'), R(10, 'a')],
         [('assign', [(10, 'b')], [(1, 'a'), (2, 'a')], 'chain'), R(11, 'a'), ('if', [], [('assign', [], [(3, 'a'), (4, 'a')], 'tuple')], [('pass',)], []), R(12, 'a')],
